@@ -71,14 +71,55 @@ def m15b(res):
     return n
 
 
+DEFECTS = [
+    # (template with one structural defect; %s = decoration inserted where children / content start)
+    ('missing end tag', '<view>%s<text>a</text>'), ('unterminated tag', '<view %s'), ('unterminated binding', '<view>%s{{ a </view>'),
+    ('trailing garbage in a binding', '<view>%s{{ a b }}</view>'), ('unknown wx: directive', '<view wx:nope="1">%s</view>'),
+    ('unknown attribute prefix', '<view nope:x="1">%s</view>'), ('duplicated attribute', '<view a="1" a="2">%s</view>'),
+    ('children under <include>', '<include src="b">%s<view/></include>'), ('children under <import>', '<import src="b">%s<view/></import>'),
+    ('children under <template is>', '<template is="t">%s<view/></template>'), ('children under <slot>', '<slot>%s<view/></slot>'),
+    ('text under <include>', '<include src="b">%stext</include>'),
+    ('missing src', '<include>%s</include>'), ('missing module', '<wxs>%s</wxs>'), ('missing is / name', '<template>%s</template>'),
+    ('wx:elif without wx:if', '<view wx:elif="{{ a }}">%s</view>'), ('wx:for-item without wx:for', '<view wx:for-item="x">%s</view>'),
+]
+DECORATIONS = ['', ' ', '<!-- c -->', '<!-- c -->\n ', '\n', '<!-- a --><!-- b -->']
+CLEAN = ['<view a="1" b="{{ c }}">t{{ d }}<text>x</text><!-- c --></view>', '<block wx:for="{{ l }}" wx:key="k"><view wx:if="{{ a }}"/><view wx:else/></block>',
+         '<include src="b"/><import src="c"/><template name="t"><slot name="n"/></template><template is="t" data="{{ {a} }}"/>',
+         '<wxs module="m">var a = 1</wxs><view>{{ m.a }} &amp; &#65;</view>']
+
+
+def defect_probe(res):
+    """Supporting, NOT solver-decided (the clean / flagged half of C15 quantifies over whole-parser runs): each structural defect the property
+    names, decorated with comments / whitespace where the content starts, must produce a diagnostic at Warn level or above; the clean
+    templates must produce none.  A deviation is a concrete replayed input."""
+    from jssym import driver
+    cases = [(name, tmpl % (d if '<view %s' not in tmpl else '')) for name, tmpl in DEFECTS for d in DECORATIONS if not (d and '<view %s' in tmpl)]
+    comp = driver.compile_batch([t for _, t in cases] + CLEAN, want=())
+    nbad = 0
+    for (name, t), c in zip(cases, comp):
+        if 'panic' in c:
+            continue
+        if not any(d['level'] >= 2 for d in c.get('diagnostics', [])):
+            nbad += 1
+            if nbad == 1:
+                res.violation({'engine': 'replay', 'harness': 'defect-probe', 'class': name}, 'structural defect "%s" is not diagnosed: %r produces %s' % (name, t, c.get('diagnostics')),
+                              {'template': t})
+    for t, c in zip(CLEAN, comp[len(cases):]):
+        if any(d['level'] >= 2 for d in c.get('diagnostics', [])):
+            res.violation({'engine': 'replay', 'harness': 'defect-probe', 'class': 'clean'}, 'a template that follows the documented syntax is diagnosed: %r -> %s' % (t, c['diagnostics'][:2]), {'template': t})
+    res.coverage['defect_probe'] = {'defective_templates': len(cases), 'clean_templates': len(CLEAN), 'undiagnosed': nbad, 'note': 'concrete runs; supporting only'}
+    res.coverage['traces_validated_against_impl'] = res.coverage.get('traces_validated_against_impl', 0) + len(cases) + len(CLEAN)
+
+
 def main(tier):
     from kani import runner
     res = Result('C15', 'model_checking')
     res.engines = ['K (Kani harnesses on the ParseState primitives and Position ordering)', 'M (level table from MIR)']
     n = m15b(res)
+    defect_probe(res)
     results = runner.run_for(res, 'C15', tier)
     checks = sum(r['checks'] for r in results)
-    res.coverage.update({'states': max(1, checks), 'transitions': max(1, checks), 'traces_validated_against_impl': 0,
+    res.coverage.update({'states': max(1, checks), 'transitions': max(1, checks), 'traces_validated_against_impl': res.coverage.get('traces_validated_against_impl', 0),
                          'explanation': 'Kani: one inductive step of the position invariant per primitive from an arbitrary state (<= 4 UTF-8 bytes, any char-boundary cursor); '
                                         'engine M: level table with a symbolic kind', 'obligations': n + len(results)})
     res.bounds = {'text': '<= 4 arbitrary UTF-8 bytes (skip_bytes: "<newline|a><any scalar>")', 'unwinding': 'length + 2, unwinding assertions on'}
